@@ -18,7 +18,7 @@ from .. import core, corpus, gen, impl
 from . import common
 from .c04 import LEXEMES
 
-ROOTS = [None, True, False, 0, 1.5, "", "ab", [], {}, [0, False, "", None, [], {}, 1, "a", [1], {"a": 1}],
+ROOTS = [None, True, False, 0, 1.5, "", "ab", [], {}, [0, False, "", None, [], {}, 1, "a", [1], {"a": 1}, "ax", "a\r", "aa", "food", "a{2}", ".", "x\n"],
          {"a": 0, "b": False, "c": "", "d": None, "e": [], "f": {}, "g": [1, {"a": [1]}], "h": {"a": {"a": 1}}}]
 
 
@@ -60,7 +60,15 @@ def run(chk: core.Check, tier: str, seed: int) -> None:
         texts.append(inject(t.replace("[", "[\n"), rng))
     for t in gen.neighbours("$.a\n.b\n[?@.c ==\n1]\n", rng, 60):
         texts.append(t)
-    texts += corpus.typed_builtin_texts()
+    texts += corpus.typed_builtin_texts() + corpus.SEEDS_INVALID_INTS
+    # regular expressions of every shape are evaluated too (the pattern's last / first character, quantified dots, ...)
+    from .c11 import ATOMS, DONTCARE, INVALID as RE_INVALID, QUANTS  # noqa: PLC0415
+    res = ["a.", ".", "..", "a.*.", "(a|x).*.", "[.]", "a\\.", ".a", "a|.", "(.)", ".?", ".{2}", "a{2}", "ab{1,3}", "x{0}y", "a{2,}", "a|b", "foo|bar|baz"]
+    res += [a + q for a in ATOMS[:30] for q in QUANTS[:6]] + DONTCARE + RE_INVALID[:20]
+    sp0 = gen.Speller(rng, 0)
+    for pat in dict.fromkeys(res):
+        texts.append(f"$[?match(@, {sp0.string(pat)})]")
+        texts.append(f"$[?search(@.a, {sp0.string(pat)}) || match(@, {sp0.string(pat)})]")
     texts = list(dict.fromkeys(texts))
     recs = []
     compiled = 0
